@@ -72,7 +72,7 @@ def _negate(ranges):
 #      ('group', idx|None, name, node) ('bol',) ('eol',) ('mbol',) ('meol',) ('empty',)
 class _P:
     def __init__(self, s):
-        self.s = s; self.i = 0; self.ngroups = 0; self.names = {}; self.multiline = False; self.icase = False
+        self.s = s; self.i = 0; self.ngroups = 0; self.names = {}; self.multiline = False; self.icase = False; self.dotall = False
     def peek(self): return self.s[self.i] if self.i < len(self.s) else None
     def eat(self):
         if self.i >= len(self.s): raise RxErr('unexpected end')
@@ -132,7 +132,8 @@ class _P:
                     if f == 'm': self.multiline = o
                     elif f == 'i':
                         self.icase = o
-                    elif f in 'sUux': raise RxErr('flag ' + f)
+                    elif f == 's': self.dotall = o
+                    elif f in 'Uux': raise RxErr('flag ' + f)
                     else: raise RxErr('flag ' + f)
                 if self.s[j] == ')':
                     self.i = j + 1
@@ -145,7 +146,7 @@ class _P:
             return ('group', idx, name, n)
         if c == ')': raise RxErr('unopened paren')
         if c == '[': return self.cls()
-        if c == '.': return ('class', True, [(10, 10)])
+        if c == '.': return ('class', True, []) if getattr(self, 'dotall', False) else ('class', True, [(10, 10)])
         if c == '^': return ('mbol',) if self.multiline else ('bol',)
         if c == '$': return ('meol',) if self.multiline else ('eol',)
         if c == '\\':
@@ -223,6 +224,7 @@ def is_sym(c): return isinstance(c, z3.ExprRef)
 
 _class_cache = {}
 def in_class(c, neg, ranges):
+    if not ranges: return bool(neg)
     if not is_sym(c):
         r = False
         for lo, hi in ranges:
